@@ -44,11 +44,26 @@ Definition np_diff_fs {A} (sub : A -> A -> A) (x : blk A) : blk A :=
 (* signal.lfilter(b, a, y, zi=zf, axis=-1): (plain array of the filtered samples, final state) *)
 Definition lfilter {F A} (filt : F -> A -> F * A) (zf : F) (y : blk A) : blk A * F :=
   let '(z, yf) := mapAccum filt zf (dat y) in (Blk yf (two y) None, z).
+(* second batch: rms, event_rate, transform, mc_reference, iirfilter *)
+Definition set_ch {A} (c : option (list Z)) (b : blk A) : blk A :=
+  Blk (dat b) (two b) (option_map (fun a => An (a_s0 a) (a_fsd a) c (a_md a)) (an b)).
+Definition py_last {X} (l : list X) : option X := match rev l with [] => None | x :: _ => Some x end.  (* l[-1]: IndexError *)
+Definition sum_len {A} (l : list (blk A)) : Z := fold_right (fun d acc => zlen (dat d) + acc) 0 l.
+(* np.mean(d ** 2, axis=-1) ** 0.5 for d reshaped to [.., n_blocks, n] (integer samples squared in double): one value per
+   block (abstract agg); PipelineData.mean divides fs and the float s0 by n (s0div); a reshaped 1-D array carries the
+   channel list [None] * n_blocks *)
+Definition rms_value {A O} (agg : list A -> O) (s0div : Z -> Z) (n n_blocks : Z) (d : blk A) : blk O :=
+  Blk (map agg (chop (Z.to_nat n_blocks) (Z.to_nat n) (dat d))) (two d)
+      (option_map (fun a => An (s0div (a_s0 a)) (a_fsd a * n)
+                               (if two d then a_ch a else Some (repeat 0 (Z.to_nat n_blocks))) (a_md a)) (an d)).
+(* function(data) for an elementwise function / matrix @ data (one column of all channels = one sample) *)
+Definition map_blk {A O} (g : A -> O) (x : blk A) : blk O := Blk (map g (dat x)) (two x) (an x).
 '''
 RESERVED = set('''py_mod py_floordiv py_len_true new_pd np_full1 np_diff_fs lfilter getitem concat2 concat_list s0_of set_s0
   dat two an zlen length Blk An Some None outs chunk fuel st A F a_s0 a_fsd a_ch a_md mapAccum diff_from negb true false
   if then else let in match with end fun forall exists Definition Fixpoint Type Prop Set as return fix cofix at using
-  where mod concat PipelineData getattr isinstance len np signal list coroutine Ellipsis'''.split())
+  where mod set_ch py_last sum_len rms_value map_blk iir_init get_range combine_events trim_left e_lo e_hi evs Rb Ev
+  Events events rblk blk ann hdr unit tt concat PipelineData getattr isinstance len np signal list coroutine Ellipsis'''.split())
 
 COROUTINE_SRC = ("def coroutine(func):\n    \"\"\"Decorator to auto-start a coroutine.\"\"\"\n\n    def start(*args, **kwargs):\n"
                  "        cr = func(*args, **kwargs)\n        next(cr)\n        return cr\n    return start")
@@ -102,6 +117,75 @@ SPEC = {
                 ('raw', "let '(y_filt, zf) := lfilter filt zf y in\n{k}", {'y_filt': 'blk', 'zf': 'F'})},
         'notes': ['filter design / stability test / lfilter_zi are pinned: abstract initial state zf0; lfilter -> mapAccum '
                   'of the abstract one-sample recurrence `filt` (plain result, final state)']},
+    'rms': {
+        'params': {'fs': ('(agg : list A -> O) (s0div : Z -> Z) (s0add : Z -> Z -> Z) (n : Z)', None),
+                   'duration': (None, None), 'target': (None, 'target')},
+        'tparams': '{A O : Type}', 'out': 'oblk', 'zvars': ['n'],
+        'state': [('data', 'listblk'), ('samples', 'Z'), ('out_s0', 'optZ')],
+        'pinned': {
+            'n = int(round(fs * duration))': ('drop',),
+            'samples = sum((d.shape[-1] for d in data))': ('let', 'samples', 'Z', 'sum_len data'),
+            'shape = list(data.shape[:-1]) + [n_blocks, n]': ('drop',),
+            'd.shape = shape': ('drop',),
+            "if d.dtype.kind in 'biu':\n    d = d.astype(np.double)": ('drop',),
+            'result = np.mean(d ** 2, axis=-1) ** 0.5': ('let', 'result', 'oblk', 'rms_value agg s0div n n_blocks d'),
+            'out_s0 = out_s0 + n_blocks': ('let', 'out_s0', 'Z', 's0add out_s0 n_blocks'),
+            'samples += data[-1].shape[-1]':
+                ('raw', 'match py_last data with\n| None => None (* IndexError *)\n| Some data_last =>\n'
+                        '  let samples := samples + zlen (dat data_last) in\n{K}\nend', {})},
+        'notes': ['n = int(round(fs * duration)) -> abstract input n; the reshape / astype(double) / np.mean(d ** 2) ** 0.5 lines '
+                  '-> rms_value (abstract block value agg; s0 of the mean = s0div of the s0 of d); the float counter '
+                  '`out_s0 + n_blocks` -> abstract s0add (s0div, s0add = s / n, + when n divides the first s0; = s, + n * k '
+                  'with s0 kept in input samples, i.e. n times the exact rational value, for every first s0)']},
+    'event_rate': {
+        'params': {'block_size': ('(block_size : Z)', 'Z'), 'block_step': ('(block_step : Z)', 'Z'),
+                   'target': (None, 'target'), 's0_mode': (None, None)},
+        'defaults': ["'center'"], 'tparams': '', 'out': 'rblk', 'chunk': 'ev',
+        'rename': {'events': 'evts'},
+        'state': [('evts', 'ev'), ('s0', 'Z')], 'types': {'blocks': 'listev'},
+        'fuel': ['Z.to_nat (e_hi evts - e_lo evts)'],
+        'pinned': {
+            's0 = events.start + block_size * 0.5': ('let', 's0', 'Z', '2 * e_lo evts + block_size'),
+            'fs = events.fs / block_step': ('drop',),
+            "keep = events.events['sample'] >= start": ('drop',),
+            'events = Events(events.events[keep], start, events.end, events.fs)':
+                ('let', 'evts', 'ev', 'trim_left evts start'),
+            'rate = [b.rate() for b in blocks]': ('let', 'rate', 'listZ', 'map (fun b => zlen (evs b)) blocks'),
+            'data = PipelineData([rate], s0=s0, fs=fs)': ('let', 'data', 'rblk', 'Rb rate s0 block_step'),
+            's0 += len(rate)': ('let', 's0', 'Z', 's0 + 2 * zlen rate')},
+        'notes': ['Events: .start / .end / .range_samples -> e_lo / e_hi / their difference, get_range_samples -> get_range, '
+                  'combine_events -> combine_events of Stages/Model.v; the half-sample s0 (start + block_size * 0.5, += len(rate)) '
+                  'is kept DOUBLED as in the model; keep = sample >= start + Events(events[keep], start, end, fs) -> trim_left; '
+                  'b.rate() -> the number of events of the window (the factor fs / block_size is not modelled); the emitted '
+                  'PipelineData([rate], s0, fs = events.fs / block_step) -> Rb counts s0x2 block_step; fuel of the window '
+                  'loop: the span of the held events (block_step >= 1 removes one sample per pass)']},
+    'transform': {
+        'params': {'function': ('(g : A -> O)', None), 'target': (None, 'target')},
+        'tparams': '{A O : Type}', 'out': 'oblk', 'state': [],
+        'pinned': {'target(function(data))': ('raw', 'let outs := outs ++ [map_blk g data] in\n{k}', {})},
+        'notes': ['function(data) -> map_blk g (an elementwise function g; annotations kept)']},
+    'mc_reference': {
+        'params': {'matrix': ('(g : A -> O)', None), 'target': (None, 'target')},
+        'tparams': '{A O : Type}', 'out': 'oblk', 'state': [],
+        'pinned': {'data = matrix @ (yield)': ('let', 'data', 'oblk', 'map_blk g chunk')},
+        'notes': ['matrix @ chunk -> map_blk g (a sample = the column of all channels, g = the matrix product)']},
+    'iirfilter': {
+        'params': {'fs': ('(filt : F -> A -> F * A) (finit : A -> F)', None), 'N': (None, None), 'Wn': (None, None),
+                   'rp': (None, None), 'rs': (None, None), 'btype': (None, None), 'ftype': (None, None),
+                   'target': (None, 'target')},
+        'tparams': '{F A : Type}', 'state': [('zo', 'F')],
+        'pinned': {
+            'b, a = signal.iirfilter(N, Wn, rp, rs, btype, ftype=ftype, fs=fs)': ('drop',),
+            "if np.any(np.abs(np.roots(a)) > 1):\n    raise ValueError('Unstable filter coefficients')": ('drop',),
+            'zi = signal.lfilter_zi(b, a)': ('drop',),
+            'zo = zi * y[..., :1]':
+                ('raw', 'match dat y with\n| [] => None (* no first sample to scale the state with *)\n| y_first :: _ =>\n'
+                        '  let zo := finit y_first in\n{K}\nend', {'zo': 'F'}),
+            'y_filt, zo = signal.lfilter(b, a, y, zi=zo, axis=-1)':
+                ('raw', "let '(y_filt, zo) := lfilter filt zo y in\n{k}", {'y_filt': 'blk', 'zo': 'F'})},
+        'notes': ['filter design / stability test / lfilter_zi pinned; zi * y[..., :1] -> the abstract initial state finit of '
+                  'the first sample; lfilter -> mapAccum of the abstract recurrence; `while y.shape[-1] == 0: y = (yield)` -> '
+                  'the step keeps waiting (state None) on empty chunks']},
 }
 # the executable instance (stream positions as sample values, Stages/Model.v) used by the self-test of every translation
 CHECKS = {
@@ -115,9 +199,26 @@ CHECKS = {
                   '  eqb_outs (outs_of (run (derivative_gen_step ssub (-1)) None (inputs h s0 sizes))) got.',
     'decimate': 'Definition gcheck_decimate (q : Z) h s0 sizes got : bool :=\n'
                 '  eqb_outs (outs_of (run (decimate_gen_step sfilt 0 q) None (inputs h s0 sizes))) got.',
+    'rms': 'Definition gcheck_rms (n : Z) h s0 sizes got : bool :=\n'
+           '  eqb_outs (outs_of (run (rms_gen_step (sagg n) (fun s => s / n) Z.add n) None (inputs h s0 sizes))) got.\n'
+           'Definition gcheck_rms_x (n : Z) h s0 sizes got : bool :=\n'
+           '  eqb_outs (outs_of (run (rms_gen_step (sagg n) (fun s => s) (fun t k => t + n * k) n) None (inputs h s0 sizes))) got.',
+    'event_rate': 'Definition gcheck_event_rate (bsz stp : Z) (cs : list events) (got : option (list rblk)) : bool :=\n'
+                  '  eqb_option (eqb_list eqb_rblk) (outs_of (run (event_rate_gen_step bsz stp) None cs)) got.',
+    'transform': 'Definition gcheck_transform h s0 sizes got : bool :=\n'
+                 '  eqb_outs (outs_of (run (transform_gen_step (fun x : Z => x)) (transform_gen_init (fun x : Z => x)) (inputs h s0 sizes))) got.',
+    'mc_reference': 'Definition gcheck_mc_reference h s0 sizes got : bool :=\n'
+                    '  eqb_outs (outs_of (run (mc_reference_gen_step (fun x : Z => x)) (mc_reference_gen_init (fun x : Z => x)) (inputs h s0 sizes))) got.',
+    'iirfilter': 'Definition gcheck_iirfilter h s0 sizes got : bool :=\n'
+                 '  eqb_outs (outs_of (run (iirfilter_gen_step sfilt sfinit) None (inputs h s0 sizes))) got.',
 }
-TYPES = {'Z': 'Z', 'blk': 'blk A', 'optblk': 'option (blk A)', 'optZ': 'option Z', 'listblk': 'list (blk A)', 'F': 'F'}
+TYPES = {'Z': 'Z', 'blk': 'blk A', 'optblk': 'option (blk A)', 'optZ': 'option Z', 'listblk': 'list (blk A)', 'F': 'F',
+         'oblk': 'blk O', 'ev': 'events', 'listev': 'list events', 'listZ': 'list Z', 'rblk': 'rblk', 'T': 'T',
+         'listoblk': 'list (blk O)', 'listrblk': 'list rblk'}
 OPT_OF = {'blk': 'optblk', 'Z': 'optZ'}
+ARR = ('blk', 'oblk')                                  # arrays (plain or annotated)
+LIST_OF = {'blk': 'listblk', 'ev': 'listev', 'Z': 'listZ', 'oblk': 'listoblk', 'rblk': 'listrblk'}
+EV_ATTR = {'start': 'e_lo {}', 'end': 'e_hi {}', 'range_samples': '(e_hi {0} - e_lo {0})'}
 ANN_ATTR = {'s0': ('a_s0', 'Z'), 'fs': ('a_fsd', 'fsd'), 'channel': ('a_ch', 'ch'), 'metadata': ('a_md', 'md')}
 CMP = {ast.Eq: '({} =? {})', ast.NotEq: 'negb ({} =? {})', ast.Lt: '({} <? {})', ast.LtE: '({} <=? {})',
        ast.Gt: '({} >? {})', ast.GtE: '({} >=? {})'}
@@ -167,11 +268,11 @@ def par(x):
 
 
 def tup(names):
-    return par(names[0]) if len(names) == 1 else '(' + ', '.join(names) + ')'
+    return 'tt' if not names else par(names[0]) if len(names) == 1 else '(' + ', '.join(names) + ')'
 
 
 def pat(names):
-    return names[0] if len(names) == 1 else "'(" + ', '.join(names) + ')'
+    return '_' if not names else names[0] if len(names) == 1 else "'(" + ', '.join(names) + ')'
 
 
 def is_yield(s):
@@ -199,11 +300,21 @@ def assigned(stmts):
 class Coro:
     def __init__(self, name, fn, spec):
         self.name, self.fn, self.spec = name, fn, spec
+        for n in ast.walk(fn):                          # pinned statements are matched by their ORIGINAL text
+            if isinstance(n, ast.stmt):
+                n._src = ast.unparse(n)
+        for n in ast.walk(fn):                          # variables whose name is taken in Coq are renamed in the emitted text
+            if isinstance(n, ast.Name) and n.id in spec.get('rename', {}):
+                n.id = spec['rename'][n.id]
         self.targets = {p for p, (_, t) in spec['params'].items() if t == 'target'}
         self.zparams = [p for p, (_, t) in spec['params'].items() if t == 'Z']
         self.pinned_seen = {k: 0 for k in spec['pinned']}
         self.aux, self.nloop, self.may_fail = [], 0, False
         self.tparams = spec.get('tparams', '{A : Type}')
+        self.out = spec.get('out', 'blk')                  # type of what is passed to the target
+        self.chunk_type = spec.get('chunk', 'blk')
+        self.declared = {**dict(spec['state']), **spec.get('types', {})}
+        self.allow_yield = False
         self.binders = ' '.join(b for b, _ in spec['params'].values() if b)
         self.args = ' '.join(w.split(':')[0].strip() for b, _ in spec['params'].values() if b
                              for w in b.strip('()').split(') ('))
@@ -233,8 +344,16 @@ class Coro:
             return f'({self.z(e.left, env)} {ARITH[type(e.op)]} {self.z(e.right, env)})', 'Z'
         if isinstance(e, ast.Compare) and len(e.ops) == 1 and type(e.ops[0]) in CMP:
             return CMP[type(e.ops[0])].format(self.z(e.left, env), self.z(e.comparators[0], env)), 'bool'
-        if isinstance(e, ast.List) and all(isinstance(x, ast.Name) for x in e.elts):
-            return '[' + '; '.join(self.blk(x, env) for x in e.elts) + ']', 'listblk'
+        if isinstance(e, ast.Yield) and e.value is None and self.allow_yield:
+            return 'chunk', self.chunk_type
+        if isinstance(e, ast.List) and e.elts and all(isinstance(x, (ast.Name, ast.Yield)) for x in e.elts):
+            parts = [self.expr(x, env) for x in e.elts]
+            if len({ty for _, ty in parts}) != 1 or parts[0][1] not in LIST_OF:
+                gap(e, 'list literal of mixed / unknown element types')
+            return '[' + '; '.join(t for t, _ in parts) + ']', LIST_OF[parts[0][1]]
+        if isinstance(e, ast.Attribute) and isinstance(e.value, ast.Name) and e.attr in EV_ATTR \
+                and env.ty.get(e.value.id) == 'ev':
+            return EV_ATTR[e.attr].format(e.value.id), 'Z'
         if isinstance(e, ast.Subscript):
             v = e.value
             # x.shape[-1]
@@ -273,11 +392,11 @@ class Coro:
                 return 'new_pd ' + ' '.join(parts), 'blk'
         gap(e, 'expression not covered')
 
-    def blk(self, e, env):
+    def blk(self, e, env, want=('blk',)):
         t, ty = self.expr(e, env)
-        if ty != 'blk':
-            gap(e, f'array expected, got {ty}')
-        return t if isinstance(e, ast.Name) else f'({t})'
+        if ty not in want:
+            gap(e, f'{"/".join(want)} expected, got {ty}')
+        return t if isinstance(e, (ast.Name, ast.Yield)) else f'({t})'
 
     # ---------------------------------------------------------------- statements
     def block(self, stmts, env, ret):
@@ -286,7 +405,7 @@ class Coro:
             return ret(env)
         s, rest = stmts[0], stmts[1:]
         K = lambda e: self.block(rest, e, ret)
-        text = ast.unparse(s)
+        text = s._src
         if isinstance(s, ast.Expr) and isinstance(s.value, ast.Constant) and isinstance(s.value.value, str):
             return K(env)                                             # docstring
         if text in self.spec['pinned']:
@@ -304,34 +423,64 @@ class Coro:
                 env.set(v, ty)
             k = K(env)
             return tmpl.replace('{K}', ind(k)).replace('{k}', k)
+        if isinstance(s, (ast.Assign, ast.AugAssign, ast.Expr)):
+            for n in ast.walk(s):
+                if (isinstance(n, ast.Attribute) and isinstance(n.ctx, ast.Load) and n.attr in ANN_ATTR
+                        and isinstance(n.value, ast.Name) and env.ty.get(n.value.id) in ARR and n.value.id not in env.ann):
+                    x = n.value.id                  # x.fs / .s0 / .channel / .metadata of something not known to be annotated
+                    env = env.copy()
+                    env.ann[x] = x + '_an'
+                    self.may_fail = True
+                    return (f'match an {x} with\n| None => None (* AttributeError *)\n| Some {x}_an =>\n' +
+                            ind(self.block(stmts, env, ret)) + '\nend')
         if has_yield([s]):
             if is_yield(s):                                           # x = (yield): positions were checked by shape()
                 env = env.copy()
-                env.set(s.targets[0].id, 'blk')
+                env.set(s.targets[0].id, self.chunk_type)
                 if rest and isinstance(rest[0], ast.Continue):
                     if len(rest) != 1 or not self.rotated:
                         gap(rest[0], '`continue` only directly after the `(yield)` that ends a step')
                     if s.targets[0].id != self.chunk_var:
                         gap(s, 'every (yield) of a rotated loop must assign the same variable')
                     return self.end_step(env)                         # the step ends here; the next one starts the loop
+                if self.rotated and not self.allow_yield:
+                    gap(s, '(yield) in an unknown position')
                 return f'let {s.targets[0].id} := chunk in\n' + K(env)
-            if not isinstance(s, ast.If):
+            if not isinstance(s, ast.If) and not self.allow_yield:
                 gap(s, '(yield) in an unknown position')
         if isinstance(s, ast.Assign) and len(s.targets) == 1:
             tg, val = s.targets[0], s.value
-            if isinstance(tg, ast.Attribute) and tg.attr == 's0' and isinstance(tg.value, ast.Name):
-                x = tg.value.id                                       # x.s0 = e  (only on a known PipelineData)
+            if isinstance(tg, ast.Attribute) and tg.attr in ('s0', 'channel') and isinstance(tg.value, ast.Name):
+                x = tg.value.id                                       # x.s0 = e / x.channel = e (only on a known PipelineData)
                 if x not in env.ann:
-                    gap(s, 'x.s0 = .. outside `if isinstance(x, PipelineData)`')
-                t = self.z(val, env)
+                    gap(s, 'x.s0 / x.channel = .. outside `if isinstance(x, PipelineData)`')
+                t, ty = self.expr(val, env)
+                if ty != ANN_ATTR[tg.attr][1]:
+                    gap(s, f'value of type {ty} stored in .{tg.attr}')
+                a, xty = env.ann[x], env.ty[x]
                 env = env.copy()
-                env.set(x, 'blk')
-                return f'let {x} := set_s0 {t} {x} in\n' + K(env)
+                env.set(x, xty)
+                text = f'let {x} := {"set_s0" if tg.attr == "s0" else "set_ch"} {par(t)} {x} in\n'
+                if any(isinstance(n, ast.Attribute) and isinstance(n.value, ast.Name) and n.value.id == x
+                       and n.attr in ANN_ATTR and n.lineno > s.lineno for n in ast.walk(self.fn)):
+                    # x is used as a PipelineData again: its annotation record with the stored field replaced
+                    f = ' '.join(par(t) if k == tg.attr else f'({ANN_ATTR[k][0]} {a})'
+                                 for k in ('s0', 'fs', 'channel', 'metadata'))
+                    text += f'let {a} := An {f} in\n'
+                    env.ann[x] = a
+                return text + K(env)
             if not isinstance(tg, ast.Name):
                 gap(s, 'assignment target not covered')
             v = tg.id
+            if isinstance(val, ast.List) and not val.elts:
+                ty = self.declared.get(v)
+                if ty not in LIST_OF.values():
+                    gap(s, '`= []` for a variable that is not declared as a list')
+                env = env.copy()
+                env.set(v, ty)
+                return f'let {v} := [] in\n' + K(env)
             if isinstance(val, ast.Constant) and val.value is None:
-                ty = dict(self.spec['state']).get(v)
+                ty = self.declared.get(v)
                 if ty not in ('optblk', 'optZ'):
                     gap(s, '`= None` for a variable that is not declared optional')
                 env = env.copy()
@@ -358,11 +507,12 @@ class Coro:
         if isinstance(s, ast.Expr) and isinstance(s.value, ast.Call) and not s.value.keywords and len(s.value.args) == 1:
             c = s.value
             if isinstance(c.func, ast.Name) and c.func.id in self.targets:
-                return f'let outs := outs ++ [{self.blk(c.args[0], env)}] in\n' + K(env)
+                return f'let outs := outs ++ [{self.blk(c.args[0], env, (self.out,))}] in\n' + K(env)
             if (isinstance(c.func, ast.Attribute) and c.func.attr == 'append' and isinstance(c.func.value, ast.Name)
-                    and env.ty.get(c.func.value.id) == 'listblk'):
+                    and env.ty.get(c.func.value.id) in LIST_OF.values()):
                 v = c.func.value.id
-                return f'let {v} := {v} ++ [{self.blk(c.args[0], env)}] in\n' + K(env)
+                elem = [k for k, l in LIST_OF.items() if l == env.ty[v]]
+                return f'let {v} := {v} ++ [{self.blk(c.args[0], env, elem)}] in\n' + K(env)
             gap(s, 'call statement not covered')
         if isinstance(s, ast.If):
             return self.if_(s, rest, env, ret)
@@ -374,6 +524,15 @@ class Coro:
         if isinstance(val, ast.BinOp) and isinstance(val.op, (ast.Mod, ast.FloorDiv)):
             f = 'py_mod' if isinstance(val.op, ast.Mod) else 'py_floordiv'
             return f'{f} ({self.z(val.left, env)}) ({self.z(val.right, env)})', 'Z'
+        if (isinstance(val, ast.Call) and isinstance(val.func, ast.Attribute) and val.func.attr == 'get_range_samples'
+                and isinstance(val.func.value, ast.Name) and env.ty.get(val.func.value.id) == 'ev'
+                and len(val.args) == 2 and not val.keywords):       # ValueError outside the span
+            return f'get_range {val.func.value.id} {par(self.z(val.args[0], env))} {par(self.z(val.args[1], env))}', 'ev'
+        if (isinstance(val, ast.Call) and isinstance(val.func, ast.Name) and val.func.id == 'combine_events'
+                and len(val.args) == 1 and not val.keywords and isinstance(val.args[0], ast.Tuple)
+                and len(val.args[0].elts) == 2):                    # ValueError when the spans are not adjacent
+            a, b = (self.blk(x, env, ('ev',)) for x in val.args[0].elts)
+            return f'combine_events {a} {b}', 'ev'
         if isinstance(val, ast.Call) and isinstance(val.func, ast.Name) and val.func.id == 'concat':
             if len(val.args) != 1 or [(k.arg, ast.unparse(k.value)) for k in val.keywords] != [('axis', '-1')]:
                 gap(val, 'concat must be called as concat(arrays, axis=-1)')
@@ -403,7 +562,7 @@ class Coro:
         if isinstance(t, ast.Call) and isinstance(t.func, ast.Name) and not t.keywords:
             if t.func.id == 'isinstance' and len(t.args) == 2 and isinstance(t.args[0], ast.Name) \
                     and ast.unparse(t.args[1]) == 'PipelineData':
-                v = self.blk(t.args[0], env)
+                v = self.blk(t.args[0], env, ARR)
                 et.ann[v] = v + '_an'
                 if v + '_an' in env.ty:
                     gap(t, 'name clash')
@@ -411,6 +570,8 @@ class Coro:
             if t.func.id == 'len' and len(t.args) == 1:
                 return f'if py_len_true {self.blk(t.args[0], env)} then\n', '', '\nelse\n', '', et, ef
         c, ty = self.expr(t, env)
+        if isinstance(t, ast.Name) and ty in LIST_OF.values():      # truth of a list
+            return f'match {c} with\n| _ :: _ =>\n', '', '\n| [] =>\n', '\nend', et, ef
         if ty != 'bool':
             gap(t, 'condition not covered')
         return f'if {c} then\n', '', '\nelse\n', '', et, ef
@@ -489,7 +650,7 @@ class Coro:
             f'  else Some {tup(carried)}.')
         self.may_fail = True
         for w in fuel.replace('(', ' ').replace(')', ' ').split():
-            if w not in ('length', 'dat', 'S', 'Z.to_nat', 'zlen') and w not in env.ty:
+            if w not in ('length', 'dat', 'S', 'Z.to_nat', 'zlen', 'e_hi', 'e_lo', '-', '+') and w not in env.ty:
                 raise TranslatorGap(f'fuel `{fuel}` mentions `{w}`, which is not defined at the loop')
         K = self.block(rest, env, ret)          # same types as at the entry (coerced at every back edge)
         return (f'match {fname} ({fuel}) {self.args} ' + ' '.join(extra + carried) +
@@ -513,13 +674,14 @@ class Coro:
         if [ast.unparse(d) for d in fn.decorator_list] != ['coroutine']:
             gap(fn, 'not decorated with exactly @coroutine')
         a = fn.args
-        if (a.vararg or a.kwarg or a.kwonlyargs or a.posonlyargs or a.defaults
+        if (a.vararg or a.kwarg or a.kwonlyargs or a.posonlyargs
+                or [ast.unparse(d) for d in a.defaults] != spec.get('defaults', [])
                 or [x.arg for x in a.args] != list(spec['params'])):
             gap(fn, f'parameters are not {list(spec["params"])}')
         body = [s for s in fn.body]
         loops = [i for i, s in enumerate(body) if isinstance(s, ast.While)]
-        if len(loops) != 1 or loops[0] != len(body) - 1:
-            gap(fn, 'the body must end with its only top-level `while True:`')
+        if not loops or loops[-1] != len(body) - 1:
+            gap(fn, 'the body must end with `while True:`')
         pro, loop = body[:-1], body[-1]
         if ast.unparse(loop.test) != 'True' or loop.orelse:
             gap(loop, 'main loop is not `while True:`')
@@ -527,19 +689,23 @@ class Coro:
             gap(fn, 'break / return')
         self.state = list(spec['state'])
         penv = Env({p: t for p, (_, t) in spec['params'].items() if t == 'Z'})
-        penv.ty['outs'] = 'listblk'
+        for v in spec.get('zvars', []):                    # integers computed from float arguments: abstract inputs
+            penv.ty[v] = 'Z'
+        self.zparams += spec.get('zvars', [])
+        penv.ty['outs'] = LIST_OF[self.out]
+        otype = TYPES[LIST_OF[self.out]]
         ys = [i for i, s in enumerate(pro) if has_yield([s])]
         lb = loop.body
         self.rotated = bool(ys)
-        sty = ' * '.join(TYPES[t] for v, t in self.state)
+        sty = ' * '.join(TYPES[t] for v, t in self.state) or 'unit'
         sty1 = f'option ({sty})' if self.rotated else (f'({sty})' if '*' in sty else sty)
-        res = f'option ({sty1} * list (blk A))'
+        res = f'option ({sty1} * {otype})'
         defs = []
         if not self.rotated:
             # P0; while True: x = (yield); B      or      while True: if <pure test>: x = (yield).. else: y = (yield)..
             self.chunk_var = None
             first = lb[0] if lb else None
-            if is_yield(first):
+            if is_yield(first) or (first is not None and first._src in spec['pinned']):
                 ok = not has_yield(lb[1:])
             else:
                 ok = (isinstance(first, ast.If) and first.orelse and is_yield(first.body[0]) and is_yield(first.orelse[0])
@@ -567,51 +733,93 @@ class Coro:
             names = [v for v, _ in self.state]
             defs.append(f'Definition {self.name}_gen_init {self.tparams} {self.binders} : {sty} :=\n{ind(init)}.')
             defs += self.aux
-            defs.append(f'Definition {self.name}_gen_step {self.tparams} {self.binders} (st : {sty}) (chunk : blk A)\n'
-                        f'  : {res} :=\n' + ind(f'let {pat(names)} := st in\nlet outs : list (blk A) := [] in\n{step}') + '.')
+            defs.append(f'Definition {self.name}_gen_step {self.tparams} {self.binders} (st : {sty}) (chunk : {TYPES[self.chunk_type]})\n'
+                        f'  : {res} :=\n' + ind(f'let {pat(names)} := st in\nlet outs : {otype} := [] in\n{step}') + '.')
         else:
-            # P0; x = (yield); P1; while True: B; x = (yield)     (the step runs from one (yield) to the next)
-            if len(ys) != 1 or not is_yield(pro[ys[0]]) or not lb or not is_yield(lb[-1]) \
-                    or lb[-1].targets[0].id != pro[ys[0]].targets[0].id:
-                gap(loop, 'a loop primed before `while True:` must end with the same `x = (yield)`')
-            self.chunk_var = x = lb[-1].targets[0].id
+            # P0; <receive the first chunk>; [while <test>: x = (yield)]; P1;
+            # while True: B_pre; <receive the next chunk>; B_post          (a step runs from one (yield) to the next)
+            yp = pro[ys[0]]
+            ks = [i for i, st_ in enumerate(lb) if has_yield([st_]) and not isinstance(st_, (ast.If, ast.While))]
+            if len(ks) != 1 or has_yield(lb[ks[0] + 1:]) or isinstance(yp, (ast.If, ast.While)):
+                gap(loop, 'a loop primed before `while True:` must receive the next chunk in exactly one top-level statement')
+            yl, b_pre, b_post = lb[ks[0]], lb[:ks[0]], lb[ks[0] + 1:]
+            self.chunk_var = x = yl.targets[0].id if is_yield(yl) else None
+            plain = is_yield(yl) and is_yield(yp) and yp.targets[0].id == x and not b_post
+            if x is not None and not plain:
+                gap(loop, 'a loop that ends with `x = (yield)` must be primed with the same `x = (yield)`')
             if x in dict(self.state):
                 gap(loop, 'the chunk variable cannot be a state variable')
-            p0, p1 = pro[:ys[0]], pro[ys[0] + 1:]
+            wait = None
+            if len(ys) == 2 and ys[1] == ys[0] + 1 and isinstance(pro[ys[1]], ast.While) and is_yield(yp):
+                wait = pro[ys[1]]                              # while <test on x>: x = (yield)
+                if wait.orelse or len(wait.body) != 1 or not is_yield(wait.body[0]) \
+                        or wait.body[0].targets[0].id != yp.targets[0].id or has_yield([wait.test]):
+                    gap(wait, 'a waiting loop must be `while <test>: x = (yield)` for the chunk variable')
+            elif len(ys) != 1:
+                gap(fn, '(yield) before the loop in an unknown position')
+            p0, p1 = pro[:ys[0]], pro[ys[0] + (2 if wait else 1):]
+            if any(self.calls_target(st_) for st_ in p1 + [yl] + b_post):
+                gap(fn, 'target called outside the part of the loop that precedes the (yield)')
             got = {}
             t0 = self.block(p0, penv, lambda e: got.setdefault('env', e) and '')
             if t0.strip() or set(got['env'].ty) != set(penv.ty):
                 gap(fn, 'statements before the first (yield) must all be pinned and dropped')
-            names = [v for v, _ in self.state if v != x]
-            benv = Env({**penv.ty, **{v: t for v, t in self.state}, x: 'blk'})
-            body = self.block(lb[:-1], benv, self.end_step)
-            binds = ' '.join(f'({v} : {TYPES[t]})' for v, t in self.state if v != x)
+            names = [v for v, _ in self.state]
+            benv = Env({**penv.ty, **dict(self.state)})
+            if x:
+                benv.ty[x] = self.chunk_type
+            body = self.block(b_pre, benv, self.end_step)
+            binds = ' '.join(f'({v} : {TYPES[t]})' for v, t in self.state)
+            xbind = f' ({x} : {TYPES[self.chunk_type]})' if x else ''
             defs += self.aux
-            defs.append(f'Definition {self.name}_gen_body {self.tparams} {self.binders} {binds} ({x} : blk A)\n'
-                        f'  : {res} :=\n' + ind(f'let outs : list (blk A) := [] in\n{body}') + '.')
-            e1 = penv.copy()
-            e1.set(x, 'blk')
+            defs.append(f'Definition {self.name}_gen_body {self.tparams} {self.binders} {binds}{xbind}\n'
+                        f'  : {res} :=\n' + ind(f'let outs : {otype} := [] in\n{body}') + '.')
 
             def enter(e):
                 for v in names:
                     if v not in e.ty:
-                        raise TranslatorGap(f'state variable `{v}` is not set before the loop')
+                        raise TranslatorGap(f'state variable `{v}` is not set when the loop is entered')
                 extra_locals = set(e.ty) - set(penv.ty) - set(names) - {x}
                 if extra_locals:
-                    raise TranslatorGap(f'locals before the loop that are not declared state: {sorted(extra_locals)}')
+                    raise TranslatorGap(f'locals that are not declared state: {sorted(extra_locals)}')
                 return (f'{self.name}_gen_body {self.args} ' +
-                        ' '.join('(' + coerce(v, e.ty[v], dict(self.state)[v]) + ')' for v in names) + f' {x}')
-            first = self.block(p1, e1, enter)
-            defs.append(f'Definition {self.name}_gen_step {self.tparams} {self.binders} (st : option ({sty})) (chunk : blk A)\n'
-                        f'  : {res} :=\n  match st with\n  | None =>\n' + ind(ind(f'let {x} := chunk in\n{first}')) +
-                        f'\n  | Some {pat(names).lstrip(chr(39))} =>\n    {self.name}_gen_body {self.args} {" ".join(names)} chunk\n  end.')
+                        ' '.join('(' + coerce(v, e.ty[v], dict(self.state)[v]) + ')' for v in names) + (f' {x}' if x else ''))
+
+            def after_first(e):
+                self.allow_yield = False
+                rest_ = self.block(p1, e, enter)
+                if wait is None:
+                    return rest_
+                c, ty = self.expr(wait.test, e)
+                if ty != 'bool':
+                    gap(wait.test, 'condition not covered')
+                return f'if {c} then\n  Some (None, []) (* keeps waiting *)\nelse\n' + ind(rest_)
+            self.allow_yield = True
+            first = self.block([yp], penv.copy(), after_first)
+            if plain:
+                nxt = f'{self.name}_gen_body {self.args} {" ".join(names)} chunk'
+            else:
+                def after_next(e):
+                    self.allow_yield = False
+                    return self.block(b_post, e, enter)
+                self.allow_yield = True
+                nxt = self.block([yl], Env({**penv.ty, **dict(self.state)}), after_next)
+            self.allow_yield = False
+            ctype = TYPES[self.chunk_type]
+            defs.append(f'Definition {self.name}_gen_step {self.tparams} {self.binders} (st : option ({sty})) (chunk : {ctype})\n'
+                        f'  : {res} :=\n  match st with\n  | None =>\n' + ind(ind(first)) +
+                        f'\n  | Some {pat(names).lstrip(chr(39))} =>\n' + ind(ind(nxt)) + '\n  end.')
         for k, n in self.pinned_seen.items():
             if n != 1:
                 raise TranslatorGap(f'{self.name}: pinned statement occurs {n} times instead of once: `{k[:80]}`')
         return '\n\n'.join(defs)
 
 
-def translate(repo, targets=('discard', 'blocked', 'downsample', 'derivative', 'decimate')):
+ALL = ('discard', 'blocked', 'downsample', 'derivative', 'decimate', 'rms', 'event_rate', 'transform',
+       'mc_reference', 'iirfilter')
+
+
+def translate(repo, targets=ALL):
     """Coq text of coq/gen/StagesStepGen.v for the current <repo>/psiaudio/pipeline.py, and an info dict"""
     path = os.path.join(repo, 'psiaudio', 'pipeline.py')
     tree = ast.parse(open(path).read())
@@ -650,7 +858,7 @@ def translate(repo, targets=('discard', 'blocked', 'downsample', 'derivative', '
 if __name__ == '__main__':
     import sys
     text, info = translate(sys.argv[1] if len(sys.argv) > 1 else '/repo',
-                           tuple(sys.argv[3:]) or ('discard', 'blocked', 'downsample', 'derivative', 'decimate'))
+                           tuple(sys.argv[3:]) or ALL)
     if len(sys.argv) > 2:
         open(sys.argv[2], 'w').write(text)
     else:
